@@ -21,6 +21,7 @@ import (
 	"io"
 	"log/slog"
 	"math"
+	"strings"
 	"sync/atomic"
 	"time"
 
@@ -28,6 +29,7 @@ import (
 	"go.uber.org/multierr"
 	pb "google.golang.org/protobuf/proto"
 
+	"github.com/oxia-db/oxia/common/compare"
 	"github.com/oxia-db/oxia/common/constant"
 	time2 "github.com/oxia-db/oxia/common/time"
 
@@ -639,6 +641,12 @@ func (d *db) applyDeleteRange(batch WriteBatch, notifications *notifications, de
 		notifications.DeletedRange(delReq.StartInclusive, delReq.EndExclusive)
 	}
 
+	// The internal keys live in the same key space as the user keys (a contiguous block in the
+	// hierarchical order). A range given by a client must never reach into that block: only a range that
+	// starts inside it (e.g. the cleanup of a session) is meant to delete internal keys.
+	internalRange := strings.HasPrefix(delReq.StartInclusive, constant.InternalKeyPrefix)
+	skippedInternalKeys := false
+
 	it, err := batch.RangeScan(delReq.StartInclusive, delReq.EndExclusive)
 	if err != nil {
 		return nil, err
@@ -646,8 +654,21 @@ func (d *db) applyDeleteRange(batch WriteBatch, notifications *notifications, de
 	var validKeys []string
 	var validKeysNum = 0
 	for ; it.Valid(); it.Next() {
-		validKeysNum++
 		key := it.Key()
+		if strings.HasPrefix(key, constant.InternalKeyPrefix) {
+			if !internalRange {
+				skippedInternalKeys = true
+				continue
+			}
+			// Internal keys carry no session or secondary-index information, and their
+			// values are not necessarily storage entries: there is nothing to call back.
+			validKeysNum++
+			if validKeysNum <= DeleteRangeThreshold {
+				validKeys = append(validKeys, key)
+			}
+			continue
+		}
+		validKeysNum++
 		if validKeysNum <= DeleteRangeThreshold {
 			validKeys = append(validKeys, key)
 		}
@@ -670,7 +691,7 @@ func (d *db) applyDeleteRange(batch WriteBatch, notifications *notifications, de
 		return nil, errors.Wrap(err, "oxia db: failed to close iterator on delete range")
 	}
 	if validKeysNum > DeleteRangeThreshold {
-		if err := batch.DeleteRange(delReq.StartInclusive, delReq.EndExclusive); err != nil {
+		if err := deleteRangeAroundInternalKeys(batch, delReq.StartInclusive, delReq.EndExclusive, skippedInternalKeys); err != nil {
 			return nil, errors.Wrap(err, "oxia db: failed to delete range")
 		}
 	} else {
@@ -687,6 +708,25 @@ func (d *db) applyDeleteRange(batch WriteBatch, notifications *notifications, de
 		slog.String("key-end", delReq.EndExclusive),
 	)
 	return &proto.DeleteRangeResponse{Status: proto.Status_OK}, nil
+}
+
+// internalKeysEnd is the first key that sorts after all the keys with the internal prefix.
+const internalKeysEnd = "__oxia\x00/"
+
+// deleteRangeAroundInternalKeys deletes [start, end), leaving out the block of internal keys
+// when the range of a client spans it.
+func deleteRangeAroundInternalKeys(batch WriteBatch, start, end string, spansInternalKeys bool) error {
+	if !spansInternalKeys {
+		return batch.DeleteRange(start, end)
+	}
+
+	if err := batch.DeleteRange(start, constant.InternalKeyPrefix); err != nil {
+		return err
+	}
+	if compare.CompareWithSlash([]byte(internalKeysEnd), []byte(end)) < 0 {
+		return batch.DeleteRange(internalKeysEnd, end)
+	}
+	return nil
 }
 
 func applyGet(kv KV, getReq *proto.GetRequest) (*proto.GetResponse, error) {
